@@ -1,4 +1,3 @@
 // stubs.cc — placeholders for simulations not linked into this binary yet.
 #include "sim.h"
-Sim *make_oneshot_sim() { return nullptr; }
 Sim *make_shared_sim() { return nullptr; }
